@@ -151,8 +151,9 @@ def step (s : S) (toks : List String) : S × String :=
     | some now => fin (Sys.step s (.flush now))
     | none => bad
   | ["hk", now] =>
+    -- the housekeeping arm of the event loop: `sync_conn_timeout`, then `handle_housekeeping`
     match now.toNat? with
-    | some now => fin (Sys.step s (.hk now))
+    | some now => fin (Sys.step (Sys.step s .syncTimeout).1 (.hk now))
     | none => bad
   | "cfg" :: rest =>
     match parseCfg rest with
@@ -216,6 +217,9 @@ def stepD (d : DS) (toks : List String) : DS × String :=
   if d.unmodelled then (d, "unmodelled") else
   match toks with
   | ["deadsock", _, _] => ({ d with unmodelled := true }, "unmodelled")
+  | ["liveloop", _] =>
+    -- the harness runs the REAL event loop against a fake receiver in real time; monitors only
+    (d, "liveloop-ok")
   | _ => let (s', o) := step d.s toks; ({ d with s := s' }, o)
 
 end Srtla.Drv.SysDrv
